@@ -11,6 +11,7 @@ import AgVerif.Proof.InsnAll
 import AgVerif.Proof.InsnFields
 import AgVerif.Proof.InsnFieldsFull
 import AgVerif.Proof.InsnEdAll
+import AgVerif.Proof.InsnDecValid
 namespace AgVerif.C01
 open AgVerif.Insn AgVerif.Gen AgVerif.Spec
 
@@ -161,6 +162,14 @@ theorem encode_decode (f : Fmt) (op : Nat) (v : List Int) (hop : op < 256) (h : 
     ∃ bytes, encode ⟨f, op, v⟩ = some bytes ∧ bytes.length = Opcodes.length f ∧ AllBytes bytes ∧
       bytes.head? = some op ∧ ∀ rest, decode f (bytes ++ rest) = .ok ⟨f, op, v⟩ :=
   encode_decode_fields f op v hop h
+
+/-- Conversely every object a specification class constructs from bytes is in range, has a byte opcode, and that
+    opcode is the first input byte: `fieldsOK` describes exactly the decodable objects, so `encode_decode` and
+    `roundtrip` together say constructor and `get_raw()` are mutually inverse bijections between the first `length`
+    bytes (that pass the pad / A ≤ 5 checks) and the in-range objects. -/
+theorem decode_in_range (f : Fmt) (hsp : (toSpec f).isSome = true) (bs : List Nat) (hb : AllBytes bs) (x : Insn)
+    (h : decode f bs = .ok x) : x.op < 256 ∧ fieldsOK f x.op x.v = true ∧ bs.head? = some x.op :=
+  decode_fieldsOK f hsp bs hb x h
 
 /-! ### non-vacuity -/
 
